@@ -8,13 +8,16 @@ import (
 	"strings"
 	"time"
 
+	"github.com/PowerDNS/lightningstream/config"
 	"github.com/PowerDNS/lightningstream/lmdbenv/header"
+	"github.com/PowerDNS/lightningstream/utils/verifhook"
 	"github.com/PowerDNS/lmdb-go/lmdb"
 
 	"verif/bucket"
 	"verif/hdr"
 	"verif/inst"
 	"verif/lmdbx"
+	"verif/lsx"
 	"verif/rng"
 	"verif/runner"
 	"verif/wire"
@@ -26,6 +29,9 @@ type mirrorModel struct {
 	main   map[string]map[string]string   // application DBIs
 	flags  map[string]uint                // application DBI flags
 	shadow map[string]map[string]inst.Ver // timestamped state
+	// staleBefore: with the sweeper enabled, a remote deletion marker older than this is not created for a key the
+	// timestamped state has no entry for (0 = sweeper disabled)
+	staleBefore uint64
 }
 
 func newMirrorModel() *mirrorModel {
@@ -86,6 +92,9 @@ func (m *mirrorModel) merge(s *wire.Snap) {
 				v.Val = ""
 			}
 			old, ok := sh[string(e.Key)]
+			if !ok && v.Del && v.TS < m.staleBefore {
+				continue
+			}
 			if !ok || v.TS > old.TS {
 				sh[string(e.Key)] = v
 			}
@@ -118,6 +127,13 @@ type c11Params struct {
 	// gets the id the loop would consider synced, SendOnce is called only when LMDB's last id is above it, and the
 	// returned ids are carried forward exactly as syncLoop does. A wrong id makes a capture be skipped.
 	Proto bool `json:"loop_protocol,omitempty"`
+	// Future: some remote versions carry stamps far in the future (a peer with a wrong clock). The application's later
+	// change of such a key loses; its DBI must then show the winning remote value again after the next load step.
+	Future bool `json:"future_remote_stamps,omitempty"`
+	// Window (loop-protocol mode only): the sweeper is enabled in the configuration (stale-marker cutoff active, it
+	// never runs), some remote snapshots bring nothing but a deletion marker past the retention for an absent key, and
+	// some application commits land inside a sync step: after its LMDB transaction ended, before it returns.
+	Window bool `json:"commits_inside_steps,omitempty"`
 }
 
 func C11() *runner.Property {
@@ -138,7 +154,8 @@ func C11() *runner.Property {
 			}
 			var cs []runner.Case
 			for i := 0; i < n; i++ {
-				p := c11Params{Seed: r.U64(), Steps: 5 + r.Intn(36), IntKeys: []int{0, 0, 4, 8}[i%4], NDBI: 1 + r.Intn(4), Empty: i%10 == 9, Proto: i%2 == 1 && i%10 != 9}
+				p := c11Params{Seed: r.U64(), Steps: 5 + r.Intn(36), IntKeys: []int{0, 0, 4, 8}[i%4], NDBI: 1 + r.Intn(4), Empty: i%10 == 9, Proto: i%2 == 1 && i%10 != 9, Future: i%10 == 6 || i%10 == 7}
+				p.Window = p.Proto && !p.Future && i%4 == 1
 				fam := "bytes"
 				if p.IntKeys > 0 {
 					fam = fmt.Sprintf("int%d", p.IntKeys)
@@ -148,6 +165,12 @@ func C11() *runner.Property {
 				}
 				if p.Proto {
 					fam += "-loopprotocol"
+				}
+				if p.Future {
+					fam += "-futurestamps"
+				}
+				if p.Window {
+					fam += "-window"
 				}
 				cs = append(cs, runner.MkCase(fam, fmt.Sprint(i), p))
 			}
@@ -180,6 +203,16 @@ func c11Key(r *rng.R, intKeys int) []byte {
 	return []byte(pool[r.Intn(len(pool))])
 }
 
+// absentKey is a key no generator produces.
+func absentKey(intKeys, step int) []byte {
+	if intKeys > 0 {
+		kb := make([]byte, intKeys)
+		kb[0], kb[1] = byte(step), 0x77
+		return kb
+	}
+	return []byte(fmt.Sprintf("zz-never-there-%d", step))
+}
+
 func c11Val(r *rng.R, empty bool) string {
 	if empty && r.Chance(1, 3) {
 		return ""
@@ -194,13 +227,22 @@ func runC11(c runner.Case, env *runner.Env) (res runner.Result) {
 	r := rng.New(p.Seed)
 	ctx := context.Background()
 	b := bucket.New()
-	x, err := inst.New(env.Dir("c11"), b, "db", "a", inst.Opt{})
+	opt := inst.Opt{}
+	if p.Window {
+		conf := lsx.FastConfig("a")
+		conf.Sweeper = config.Sweeper{Enabled: true, RetentionDays: 1, Interval: time.Hour, FirstInterval: time.Hour, LockDuration: time.Second, ReleaseDuration: time.Second}
+		opt.Conf = &conf
+	}
+	x, err := inst.New(env.Dir("c11"), b, "db", "a", opt)
 	if err != nil {
 		res.Verdict, res.Msg = runner.Inconclusive, err.Error()
 		return
 	}
 	defer x.Close()
 	m := newMirrorModel()
+	if p.Window {
+		m.staleBefore = uint64(time.Now().Add(-36 * time.Hour).UnixNano()) // retention 1 day; remote stamps are from 2001
+	}
 	dbiNames := []string{"d0", "d1", "d2", "d3"}[:p.NDBI]
 	createFlags := uint(0)
 	if p.IntKeys > 0 {
@@ -210,9 +252,21 @@ func runC11(c runner.Case, env *runner.Env) (res runner.Result) {
 	remoteTS := uint64(1000000000000000000) // 2001: older than every local stamp
 	var lastSynced header.TxnID             // loop-protocol mode: the id syncLoop would consider synced
 	steps := 0
-	for step := 0; step < p.Steps; step++ {
+	var script []string
+	for step := 0; step < p.Steps || len(script) > 0; step++ {
 		// ---- application change set
 		nch := r.Intn(6)
+		// window mode: now and then a scripted triple - a send that leaves everything synced, a load that brings only
+		// a stale marker while the application commits inside it and at no other time, a load that brings nothing
+		forced := ""
+		if len(script) > 0 {
+			forced, script = script[0], script[1:]
+		} else if p.Window && r.Chance(1, 5) {
+			forced, script = "send", []string{"load-staletomb+win", "load-empty"}
+		}
+		if forced != "" {
+			nch = 0
+		}
 		type change struct {
 			dbi string
 			key []byte
@@ -277,6 +331,46 @@ func runC11(c runner.Case, env *runner.Env) (res runner.Result) {
 		_ = lastSynced
 		lastBefore := lmdbx.LastTxnID(x.Env)
 		kind := rng.Pick(r, "send", "load-empty", "load-remote", "load-remote")
+		staleTomb := false
+		if p.Window && kind == "load-empty" && r.Bool() {
+			staleTomb = true
+		}
+		switch forced {
+		case "send":
+			kind, staleTomb = "send", false
+		case "load-staletomb+win":
+			kind, staleTomb = "load-empty", true
+		case "load-empty":
+			kind, staleTomb = "load-empty", false
+		}
+		// a commit inside the step: made from the yield point between the end of the step's LMDB transaction and its
+		// return (the instant at which LMDB may hand the id of an unrecorded transaction to the application)
+		var inWin *change
+		winFired := false
+		if p.Window && ((forced == "" && r.Chance(1, 2)) || forced == "load-staletomb+win") && len(dbiNames) > 0 {
+			d := dbiNames[0]
+			if _, ok := m.main[d]; ok || true {
+				inWin = &change{dbi: d, key: []byte(fmt.Sprintf("win-%02d", step%7)), val: fmt.Sprintf("in-window-%d", step)}
+				if p.IntKeys > 0 {
+					kb := make([]byte, p.IntKeys)
+					kb[0] = byte(200 + step%7)
+					inWin.key = kb
+				}
+				point := "load.after_txn"
+				if kind == "send" {
+					point = "send.after_txn"
+				}
+				verifhook.Set(func(instance, pt, detail string) {
+					if pt != point || winFired {
+						return
+					}
+					winFired = true
+					_, _ = lmdbx.Update(x.Env, func(txn *lmdb.Txn) error {
+						return lmdbx.Put(txn, inWin.dbi, createFlags, inWin.key, []byte(inWin.val))
+					})
+				})
+			}
+		}
 		var snap *wire.Snap
 		if kind == "load-remote" {
 			snap = &wire.Snap{FormatVersion: 3, CompatVersion: 1, Meta: wire.Meta{DatabaseName: "db", InstanceID: "r", GenerationID: "GX", TimestampNano: remoteTS}}
@@ -307,6 +401,9 @@ func runC11(c runner.Case, env *runner.Env) (res runner.Result) {
 					kv := wire.KV{Key: k}
 					remoteTS += 1000
 					kv.TS = remoteTS
+					if p.Future && r.Chance(1, 2) {
+						kv.TS = remoteTS + 1<<62 // year 2116: beats every capture stamp of this run
+					}
 					if r.Chance(1, 3) {
 						kv.Flags = 1
 					} else {
@@ -341,6 +438,12 @@ func runC11(c runner.Case, env *runner.Env) (res runner.Result) {
 			ls := snap
 			if kind == "load-empty" {
 				ls = inst.EmptySnap("db", "r")
+				if staleTomb {
+					old := uint64(time.Now().Add(-48 * time.Hour).UnixNano())
+					ls = &wire.Snap{FormatVersion: 3, CompatVersion: 1, Meta: wire.Meta{DatabaseName: "db", InstanceID: "r", GenerationID: "GX", TimestampNano: old},
+						DBIs: []wire.DBI{{Name: dbiNames[0], Flags: uint64(createFlags), Entries: []wire.KV{{Key: absentKey(p.IntKeys, step), TS: old, Flags: 1}}}}}
+					res.Count("stale_marker_only_loads", 1)
+				}
 			}
 			if p.Proto {
 				var id header.TxnID
@@ -358,6 +461,7 @@ func runC11(c runner.Case, env *runner.Env) (res runner.Result) {
 				_, _, serr = x.LoadSnap(ctx, ls, "r", time.Now(), 0)
 			}
 		}
+		verifhook.Set(nil)
 		t1 := uint64(time.Now().UnixNano())
 		steps++
 		trace = append(trace, fmt.Sprintf("step %d: %d app changes, %s", step, len(chs), kind))
@@ -372,6 +476,56 @@ func runC11(c runner.Case, env *runner.Env) (res runner.Result) {
 			res.Violate(sig, fmt.Sprintf("%s failed on valid application data: %v", kind, serr), wit())
 			return
 		}
+		if p.Future {
+			// With stamps from a peer whose clock is ahead, what the capture of a local change should do is not
+			// defined by the statement (the documented premise of this mode is one clock). What it does say holds for
+			// every remote snapshot: after a load step the application DBIs are exactly the live entries of the
+			// timestamped state. No model is involved: both sides are read from the same dump.
+			afterDump, _, _ := lmdbx.DumpEnv(x.Env)
+			realShadow, err := inst.LogicalOf(afterDump, false)
+			if err != nil {
+				res.Violate("shadow-value-unreadable", err.Error(), wit())
+				return
+			}
+			realApp, _ := inst.AppOf(afterDump, false)
+			if kind != "send" {
+				live := map[string]map[string]string{}
+				for d := range realApp {
+					live[d] = map[string]string{}
+				}
+				for d, sh := range realShadow {
+					if live[d] == nil {
+						live[d] = map[string]string{}
+					}
+					for k, v := range sh {
+						if !v.Del {
+							live[d][k] = v.Val
+						}
+					}
+				}
+				if df := diffApp(realApp, live); df != "" {
+					res.Violate("app-dbi-differs-from-merged-state", fmt.Sprintf("after %s (step %d) the application DBIs are not the live entries of the timestamped state (application vs live entries): %s", kind, step, df), wit())
+					return
+				}
+				res.Count("future_stamp_projection_checks", 1)
+			}
+			// the generator of application changes keeps working from what is really there
+			m.main = map[string]map[string]string{}
+			for d, kv := range realApp {
+				m.main[d] = map[string]string{}
+				for k, v := range kv {
+					m.main[d][k] = v
+				}
+			}
+			for d := range m.main {
+				if _, ok := m.flags[d]; !ok {
+					m.flags[d] = afterDump[d].Flags
+				}
+			}
+			res.Count("steps", 1)
+			res.NonTrivial = true
+			continue
+		}
 		// ---- model step
 		const nowPlaceholder = uint64(1) << 61 // between past remote stamps and future ones
 		stamped := m.capture(nowPlaceholder)
@@ -380,6 +534,26 @@ func runC11(c runner.Case, env *runner.Env) (res runner.Result) {
 				m.merge(snap)
 			}
 			m.project()
+		}
+		if staleTomb {
+			// the load may create the (empty) DBI named in the snapshot; the stale marker itself must not appear
+			if _, ok := m.main[dbiNames[0]]; !ok {
+				m.main[dbiNames[0]] = map[string]string{}
+				m.flags[dbiNames[0]] = createFlags
+			}
+		}
+		if inWin != nil && winFired {
+			// committed after the step's transaction: the application DBI has it now, the timestamped state gets it
+			// with the next step's capture
+			if m.main[inWin.dbi] == nil {
+				m.main[inWin.dbi] = map[string]string{}
+				m.flags[inWin.dbi] = createFlags
+			}
+			m.main[inWin.dbi][string(inWin.key)] = inWin.val
+			res.Count("commits_inside_a_step", 1)
+			if staleTomb && len(chs) == 0 {
+				res.Count("commits_inside_an_otherwise_empty_stale_marker_load", 1)
+			}
 		}
 		// ---- observe
 		afterDump, _, _ := lmdbx.DumpEnv(x.Env)
